@@ -39,7 +39,8 @@ check("C14", "model_checking",
       "DESIGN 3 C14")
 
 check("C11", "exploration",
-      "Seeded calls of the four annealing functions over every accepted model type (dict, labelled, Matrix with gaps, constant and "
+      "Every polynomial of the TLC-emitted universe (spec/GenPoly.tla) through each of the four functions as dict and native Matrix type "
+      "(exhaustive tier), and seeded calls of the four annealing functions over every accepted model type (dict, labelled, Matrix with gaps, constant and "
       "empty models), schedules ('linear', 'geometric', explicit incl. zeros and []), anneal_duration, temperature_range, initial "
       "states, both orders, seeds and num_anneals in {-1,0,1,2,3} run against the extension rebuilt from /repo; spec/CheckAnneal.tla "
       "(TLC) evaluates on every record: result count, state domain (Matrix: 0..max_index), value set, spin flag, value = model "
@@ -75,7 +76,9 @@ check("C02", "model_checking",
       "slack sizing with/without log_trick, the sign ancilla of ne); TLC checks the contract PenaltyExact (F >= 0; min over ancillas 0 iff "
       "the relation holds; >= lam otherwise; weaker when warned unsatisfiable), fresh ancilla names, soundness of the 'cannot be "
       "satisfied' branches and linearity in lam for EVERY polynomial over two labels with small coefficients, every relation, log_trick "
-      "and several kinds of bounds. Code: seeded scenarios of 1-3 constraints on one real PCBO (random and special-case-shaped "
+      "and several kinds of bounds. Code: (i) EXHAUSTIVE - every polynomial of the TLC-emitted universe (spec/GenPoly.tla: 2 labels, "
+      "coefficients {-1,1,2}; thorough {-2,-1,1,2}) x six relations x log_trick through the real method, i.e. the design-level "
+      "universe run through the code; (ii) seeded scenarios of 1-3 constraints on one real PCBO (random and special-case-shaped "
       "polynomials over labels of mixed types, dict / PUBO / PCBO arguments, bounds omitted / partial / exact / loose); "
       "spec/CheckConstraints.tla (TLC) evaluates the contract on the implementation's penalty for every assignment of variables and "
       "ancillas, is_solution_valid against the constraints passed, ancilla freshness across the scenario, num_ancillas, argument immutability.",
@@ -84,6 +87,7 @@ check("C02", "model_checking",
       "TLA+ contract + transcription checked by TLC; real constraint calls recorded and judged by TLC against the contract", "DESIGN 3 C02")
 check("C03", "model_checking",
       "As C02 for PCSO: design check of the wrapper (to boolean, constrain, back to spin) on every spin polynomial over two labels; "
+      "the same TLC-emitted universe x six relations x log_trick through the real PCSO methods (exhaustive tier) and seeded "
       "real PCSO scenarios judged by spec/CheckConstraints.tla over spin assignments (F >= 0, zero iff H(z) R 0, >= lam otherwise), "
       "ancilla names never repeated across the constraints of a scenario, num_ancillas covers every ancilla present, is_solution_valid.",
       "as C02; spin penalties carry dyadic coefficients (one power-of-two denominator per record)",
